@@ -1,16 +1,16 @@
 SPECIFICATION Spec
 CONSTANTS
   Mode = "pipeline"
-  Shapes <- ShapesPipe
+  Shapes <- ShapesPipeQuick
   Names = {"prod", "web"}
   Prefixes = {"", "cls"}
-  RuleSets <- RuleSetsAll
-  DefaultKinds = {"det", "dyn"}
+  RuleSets <- RuleSetsQuick
+  DefaultKinds = {"dyn"}
   DetRuleSets <- RuleSetsQuick
-  Encs = {"json", "msgpack", "event"}
+  Encs = {"json", "msgpack"}
   Auths = {"ok", "fail"}
   WithReload = TRUE
-  Faithful = FALSE
+  Faithful = TRUE
   UpperHexIsClassic = FALSE
 INVARIANTS TypeOK EnvKeyUsesEnvironment ClassicKeyUsesDataset DocumentedShapes NeverWithoutSampler PrefixSeparates ExtractedIsWhatDeciderReads DecisionOfOneTarget NoUnknownEnvironmentIngested
 PROPERTY DecisionFollowsRules
